@@ -374,7 +374,8 @@ def gen_tx(rng, docgen, live_keys, kind=None):
     ops = []
     live = sorted(live_keys)
     if kind in ("append", "default", "optimize", "clear", "cancel"):
-        for _ in range(rng.randint(1, 3)):
+        # a CLEAR without additions leaves an index without segments (EmptyReader)
+        for _ in range(rng.randint(0 if kind == "clear" and rng.random() < 0.4 else 1, 3)):
             ops.append(("add", docgen.doc()))
         if live and kind != "clear" and rng.random() < 0.4:
             ops.append(("del", rng.choice(live)))
@@ -500,6 +501,10 @@ def judge(env, monitor, what, reader, got, errs, exp, base_w, parts_checked):
     lazy_only = all(p in COLUMN_BACKED for p in bad_parts + err_parts)
     if orphans and lazy_only and env.layout != "compound":
         ctx.count("known.loose_lazy." + what)
+        for p in bad_parts:
+            ctx.count("known.loose_lazy.part.%s.differs" % p)
+        for p in err_parts:
+            ctx.count("known.loose_lazy.part.%s.raises.%s" % (p, type(errs[p]).__name__))
         ctx.fail(monitor, KNOWN_LOOSE, w, detail)
         return False
     for p in err_parts:
@@ -793,17 +798,24 @@ def run_thread_case(ctx, idx, rng):
         docgen = DocGen(rng)
         model0 = {}
         prelude = []
-        for p in range(rng.randint(1, 4)):
-            w = ix.writer(compound=compound_for(rng))
-            tx = gen_tx(rng, docgen, model0, kind="append")
-            apply_tx(w, tx)
-            w.commit(merge=False)
-            prelude.append(slim_tx(tx))
-            for op in tx["ops"]:
-                if op[0] == "del":
-                    model0.pop(op[1], None)
-                else:
-                    model0[op[1]["id"]] = op[1]
+
+        def run_prelude():
+            for p in range(rng.randint(1, 4)):
+                w = ix.writer(compound=compound_for(rng))
+                tx = gen_tx(rng, docgen, model0, kind="append")
+                prelude.append(slim_tx(tx))
+                apply_tx(w, tx)
+                w.commit(merge=False)
+                for op in tx["ops"]:
+                    if op[0] == "del":
+                        model0.pop(op[1], None)
+                    else:
+                        model0[op[1]["id"]] = op[1]
+        wb["prelude"] = prelude
+        okp, _ = ctx.guard("no-exception", wb, run_prelude)
+        if not okp:
+            ctx.case(("prelude-failed", storage, layout), False)
+            return
         g0 = ix.latest_generation()
         wb["prelude"] = prelude
         s = S.Scheduler(sseed, max_steps=ctx.pick(200000, 400000), watchdog_s=90, stall_s=15, **pol)
